@@ -409,7 +409,7 @@ void error(const struct location *, const char *, ...);
 
 void scanfrom(const char *, FILE *);
 void scanopen(void);
-void scansetloc(struct location loc);
+void scansetloc(struct location loc, size_t line);
 void scan(struct token *);
 
 /* preprocessor */
